@@ -179,7 +179,9 @@ def register(reg):
         eng = it.eng
         data = dict(zip(("address", "timeout", "source_address"), args))
         data.update(kwargs)
-        rt_op(it, st, "socket.create_connection", node, SOCK_ERR, suspends=False, **data)
+        # + UnicodeError: the host name is IDNA-encoded for the resolver (a label of more than 63 characters cannot be:
+        # design_probes/p36) - the same for the two async runtimes below
+        rt_op(it, st, "socket.create_connection", node, SOCK_ERR + ["UnicodeError"], suspends=False, **data)
         s = eng.alloc(st, RT_SOCK, "sock")
         eng.heap_write(st, s, "RT.closed", VBool(False))
         return s
@@ -258,9 +260,9 @@ def register(reg):
 
         return op
 
-    connect_stub("anyio.connect_tcp", "anyio.connect_tcp", ["OSError", "anyio.BrokenResourceError"])
+    connect_stub("anyio.connect_tcp", "anyio.connect_tcp", ["OSError", "anyio.BrokenResourceError", "UnicodeError"])
     connect_stub("anyio.connect_unix", "anyio.connect_unix", ["OSError", "anyio.BrokenResourceError"])
-    connect_stub("trio.open_tcp_stream", "trio.open_tcp_stream", ["OSError", "trio.BrokenResourceError"])
+    connect_stub("trio.open_tcp_stream", "trio.open_tcp_stream", ["OSError", "trio.BrokenResourceError", "UnicodeError"])
     connect_stub("trio.open_unix_socket", "trio.open_unix_socket", ["OSError", "trio.BrokenResourceError"])
 
     @reg.intrinsic("trio.SSLStream")
